@@ -39,6 +39,8 @@ CONSTANTS Dims,           \* space dimensions
           Sills,          \* set of sills, in halves (2 = sill 1)
           Layouts,        \* subset of {"spread", "cluster", "nodes", "outside"}
           Verrs,          \* data error variance: subset of {"const", "distinct", "extreme"}
+          NStructs,       \* numbers of Matern structures of the model: subset of {1, 2}
+          Drifts,         \* subset of {"none", "const", "linear"}: no drift, unknown constant mean, linear drift
           Keep(_),        \* symmetry reduction / thinning of the product (TRUE = keep the configuration)
           HeavyEvery      \* the heavy obligations are executed on one configuration out of HeavyEvery
 
@@ -59,6 +61,12 @@ Safety         == 100
 CgEpsDefault   == T(1, -8)
 CgEpsSet       == { T(1, -4), T(1, -8), T(1, -12) }     \* values set explicitly through setEps
 CgNIterMax     == 1000
+\* options of that solver, part of the quantifier "every linear solve": period of the restart (the residual b - A x is
+\* recomputed exactly every so many iterations; 0 = never) and preconditioner M (then the rule is r'Mr / sum_i |b_i| <= eps;
+\* with the Jacobi preconditioner M = diag(A)^-1 used here r'r <= max_i A_ii r'Mr, so |A x - b| <= sqrt(eps sum|b_i| max A_ii)).
+\* The class neither documents nor reports what happens when the iteration limit is reached: nothing is asserted there.
+CgRestarts     == <<0, 3, 7, 20>>
+CgPreconds     == {FALSE, TRUE}
 \* Eigen::ConjugateGradient (LinearOpCGSolver) stops when |r| <= tol |b|; the values set explicitly:
 EigenTolSet    == { T(1, -5), T(1, -10) }
 EigenTolKrigingSPDENew == T(1, -5)       \* hard-coded in krigingSPDENew, 1000 iterations
@@ -69,9 +77,9 @@ EigenTolKrigingSPDENew == T(1, -5)       \* hard-coded in krigingSPDENew, 1000 i
 \* nu = alpha - nd/2 must be positive (Matern)
 NuOk(nd, a2) == a2 > nd
 
-Configs == UNION { { [nd |-> nd, mesh |-> mc, rot |-> rc, alpha2 |-> a2, aniso |-> an, sill2 |-> s, layout |-> l, verr |-> ve] :
+Configs == UNION { { [nd |-> nd, mesh |-> mc, rot |-> rc, alpha2 |-> a2, aniso |-> an, sill2 |-> s, layout |-> l, verr |-> ve, nstruct |-> ns, drift |-> dr] :
                        mc \in MeshChoices(nd), rc \in RotCodes(nd), a2 \in { a \in Alpha2s(nd) : NuOk(nd, a) },
-                       an \in Anisos(nd), s \in Sills, l \in Layouts, ve \in Verrs } : nd \in Dims }
+                       an \in Anisos(nd), s \in Sills, l \in Layouts, ve \in Verrs, ns \in NStructs, dr \in Drifts } : nd \in Dims }
 Kept == { c \in Configs : Keep(c) }
 
 NTot(nd, nx) == IF nd = 1 THEN nx[1] ELSE IF nd = 2 THEN nx[1] * nx[2] ELSE nx[1] * nx[2] * nx[3]
@@ -85,6 +93,11 @@ NApices(c)   == NTot(c.nd, c.mesh.nx) - (IF c.mesh.fam = "turbomask" THEN (IF c.
 RangeBase(c)  == IF c.aniso = "iso" THEN (IF c.nd = 1 THEN <<3>> ELSE IF c.nd = 2 THEN <<3, 3>> ELSE <<3, 3, 3>>)
                  ELSE (IF c.nd = 1 THEN <<4>> ELSE IF c.nd = 2 THEN <<4, 2>> ELSE <<4, 2, 3>>)
 RangeCells(c) == LET f == IF c.sill2 = 2 THEN 1 ELSE 2  b == RangeBase(c) IN [k \in 1..c.nd |-> f * b[k]]
+\* second Matern structure (nstruct = 2): another smoothness (alpha 2 <-> 3), isotropic, twice the ranges, unit sill.
+\* The covariance of the data is then Sigma = sum_k A_k Q_k^-1 A_k' + D, and with a drift of basis X (columns 1 or
+\* 1, x_1 .. x_nd at the data) the coefficients are the generalised least squares ones (X' Sigma^-1 X)^-1 X' Sigma^-1 z.
+Struct2(c) == [alpha2 |-> IF c.alpha2 = 4 THEN 6 ELSE 4, ranges |-> [k \in 1..c.nd |-> 6], sill2 |-> 2]
+DriftOrder(c) == IF c.drift = "none" THEN -1 ELSE IF c.drift = "const" THEN 0 ELSE 1
 AnisoAngleCode(c) == IF c.aniso = "rotaniso" THEN 4 ELSE 0
 
 -----------------------------------------------------------------------------
@@ -98,7 +111,9 @@ Pt(c, a, b, d) == IF c.nd = 1 THEN <<a>> ELSE IF c.nd = 2 THEN <<a, b>> ELSE <<a
 In(c, k, v) == IF v > Last(c, k) - 1 THEN Last(c, k) - 1 ELSE v
 P3(c, a, b, d) == Pt(c, In(c, 1, a), IF c.nd >= 2 THEN In(c, 2, b) ELSE 0, IF c.nd >= 3 THEN In(c, 3, d) ELSE 0)
 
-DataPts(c) ==
+\* two more data in every layout, so that a linear drift (1 + nd coefficients) leaves at least two degrees of freedom
+MoreData(c) == << P3(c, 5, 6, 2), P3(c, 3, 1, 6) >>
+DataPts(c) == MoreData(c) \o
   CASE c.layout = "spread"  -> << P3(c, 1, 2, 1), P3(c, 6, 1, 3), P3(c, 3, 6, 5), P3(c, 7, 7, 2), P3(c, 5, 3, 7) >>
     [] c.layout = "cluster" -> << P3(c, 1, 1, 1), P3(c, 2, 1, 1), P3(c, 1, 2, 1), P3(c, 2, 2, 1), P3(c, 6, 5, 3) >>   \* several data in one simplex
     [] c.layout = "nodes"   -> << Pt(c, 4, 4, 4), Pt(c, 0, 0, 0), Pt(c, Last(c, 1), 0, 0), P3(c, 2, 3, 1) >>          \* data on mesh nodes
@@ -108,13 +123,14 @@ DataVals(c) == [i \in 1..Len(DataPts(c)) |-> ((7 * i) % 5) - 2]            \* sm
 NuggetInv(c) == IF c.layout = "cluster" THEN 1000 ELSE 10
 \* Data error variance D = diag(s2_i) of the kriging system (Q + A' D^-1 A) x = A' D^-1 z:
 \*   "const"    the nugget effect of the model, the same for every datum (no variable V);
-\*   "distinct" a variance of measurement error per datum (locator V), all different: (i + 1) / 20 of the sill;
-\*   "extreme"  per datum, one very small (1/80 of the sill), one large (5 sills), the others 1/10, 3/20, ...
+\*   "distinct" a variance of measurement error per datum (locator V), all different: (i + 1) / 20 of the total sill
+\*              (sum of the sills of the Matern structures);
+\*   "extreme"  per datum, one very small (1/80 of the total sill), one large (5 times), the others 1/10, 3/20, ...
 \* With a variable V the model carries no nugget effect and every value is above the floor EpsNugget (1/100 of the
-\* sill, default of SPDEParam) under which the code raises the variances: the variance of datum i is V_i in every
+\* total sill, default of SPDEParam) under which the code raises the variances: the variance of datum i is V_i in every
 \* entry point, and the system can be assembled from the public parts Q, A and the V values alone.
 EpsNuggetInv == 100
-VerrFrac(c) ==     \* fractions <<num, den>> of the sill
+VerrFrac(c) ==     \* fractions <<num, den>> of the total sill
   IF c.verr = "const" THEN <<>>
   ELSE [i \in 1..Len(DataPts(c)) |->
           IF c.verr = "distinct" THEN <<i + 1, 20>>
@@ -171,7 +187,7 @@ Obligations(c) == {
   O("SolveResidual.PrecisionOpCs", "SolveResidual", "le", TolDirectSolve, "PrecisionOpCs::evalInverse (Cholesky): backward error"),
   O("SolveResidual.Rhs", "SolveResidual", "le", TolSameMap, "computeRhs(z) = A' z / s2, relative to its largest entry"),
   O("SolveResidual.MultiCondCs", "SolveResidual", "le", TolDirectSolve, "PrecisionOpMultiConditionalCs::evalInverse (Cholesky): backward error against Q + A' D^-1 A assembled independently from its public parts (Q from PrecisionOpCs::getQ, A from the ProjMatrix, D from the nugget or the V values)"),
-  O("SolveResidual.MultiCondCG", "SolveResidual", "le", Cg, "PrecisionOpMultiConditional::evalInverse (own CG) for every eps of CgEpsSet: |Ax-b| <= Safety sqrt(eps sum|b_i|)"),
+  O("SolveResidual.MultiCondCG", "SolveResidual", "le", Cg, "PrecisionOpMultiConditional::evalInverse (own CG) for every eps of CgEpsSet x restart period of CgRestarts x preconditioner off / Jacobi: |Ax-b| <= Safety sqrt(eps sum|b_i|) (x sqrt(max A_ii) with the preconditioner)"),
   O("SolveResidual.MultiCondCGvsAssembled", "SolveResidual", "le", Cg, "the same solution against the assembled matrix Q + A'A/s2"),
   O("SolveResidual.EigenCG", "SolveResidual", "le", Cg, "LinearOpCGSolver on SPDEOp for every tol of EigenTolSet: |Ax-b| <= Safety tol |b|"),
   O("SolveResidual.SPDEOpMatrix", "SolveResidual", "le", TolDirectSolve, "SPDEOpMatrix::kriging (Cholesky): backward error"),
@@ -181,6 +197,14 @@ Obligations(c) == {
   O("CholEqualsCG.Quadratic", "CholEqualsCG", "le", Cg, "SPDE::computeQuad, the quadratic term of the log-likelihood: Safety |rhs| sqrt(eps sum|b_i|) / lambda_min"),
   O("CholEqualsCG.KrigingSPDENew", "CholEqualsCG", "le", Cg, "krigingSPDENew(useCholesky = 1 / 0), against each other and against the assembled system: Safety tol |rhs| / lambda_min, tol = EigenTolKrigingSPDENew"),
   O("CholEqualsCG.SPDEOp", "CholEqualsCG", "le", Cg, "SPDEOpMatrix::kriging versus SPDEOp::kriging (Eigen CG) for every tol of EigenTolSet"),
+  \* ---- inverse of the covariance of the data, quadratic form, drift coefficients: against the dense Sigma assembled
+  \* ---- independently (Q_k from PrecisionOpCs::getQ, A from the ProjMatrix, D from the nugget or the V values)
+  O("InvCov.Cholesky", "SolveResidual", "le", T(1, -8), "PrecisionOpMultiConditionalCs::evalInvCov(x) = Sigma^-1 x, relative to |D^-1 x| (the size of the terms of the Woodbury form)"),
+  O("InvCov.CG", "SolveResidual", "le", Cg, "PrecisionOpMultiConditional::evalInvCov(x): |y - Sigma^-1 x| <= Safety |D^-1 A|_F sqrt(eps sum|b_i|) / lambda_min"),
+  O("InvCov.QuadraticCholesky", "SolveResidual", "le", T(1, -8), "computeQuadratic(x) = x' Sigma^-1 x, relative to x' D^-1 x"),
+  O("InvCov.QuadraticCG", "SolveResidual", "le", Cg, "computeQuadratic(x) by CG: |x| times the bound of InvCov.CG"),
+  O("Drift.CoeffsCholesky", "SolveResidual", "le", T(1, -7), "computeCoeffs / SPDE::getCoeffs (Cholesky) = generalised least squares coefficients, relative to their norm"),
+  O("Drift.CoeffsCG", "SolveResidual", "le", Cg, "the same by CG: |G^-1| sqrt(p) (|z| + |X|_F |beta|) times the bound of InvCov.CG, G = X' Sigma^-1 X"),
   O("CholEqualsCG.LogDetOp", "CholEqualsCG", "le", T(1, -6), "log det (Q + A'A/s2): computeLogDetOp of the two multi-conditional operators (the matrix-free one is a Monte-Carlo estimate: see LogDetStochastic)"),
   O("CholEqualsCG.LogLikelihood", "CholEqualsCG", "le", T(1, -6), "SPDE::computeLogLikelihood in the two modes"),
   O("CholEqualsCG.LogLikelihoodEntryPoints", "CholEqualsCG", "le", TolSameMap, "logLikelihoodSPDE(useCholesky = 1) = SPDE(useCholesky = 1).computeLogLikelihood (both by Cholesky)")
@@ -192,6 +216,8 @@ StochasticObligations(c) == {
   O("LogDetStochastic.Q", "CholEqualsCG", "le", T(8, 0), "PrecisionOp::getLogDeterminant(1) repeated, against the Cholesky value: |mean - exact| <= 8 stderr + 1e-3 n")
 }
 
+\* obligations that exist only with a drift
+NeedsDrift(name) == name \in {"Drift.CoeffsCholesky", "Drift.CoeffsCG"}
 Clauses == {"ShiftOp", "OpEqualsMatrix", "Symmetric", "PositiveDefinite", "SolveResidual", "CholEqualsCG"}
 Covered(c) == /\ \A cl \in Clauses : \E o \in Obligations(c) : o.clause = cl
               /\ \A o \in Obligations(c) \cup StochasticObligations(c) :
@@ -200,7 +226,7 @@ Covered(c) == /\ \A cl \in Clauses : \E o \in Obligations(c) : o.clause = cl
                    /\ o.clause \in Clauses
               /\ \A o1, o2 \in Obligations(c) : o1.name = o2.name => o1 = o2
               /\ Safety >= 100
-              /\ Len(DataPts(c)) >= 4
+              /\ Len(DataPts(c)) >= (1 + c.nd) + 2
               /\ c.verr # "const" =>        \* the variances differ between data and stay above the floor
                     /\ Len(VerrFrac(c)) = Len(DataPts(c))
                     /\ \A i, j \in DOMAIN VerrFrac(c) : i # j => VerrFrac(c)[i][1] * VerrFrac(c)[j][2] # VerrFrac(c)[j][1] * VerrFrac(c)[i][2]
@@ -209,9 +235,9 @@ Covered(c) == /\ \A cl \in Clauses : \E o \in Obligations(c) : o.clause = cl
 
 ConfigCase(c) ==
   [k |-> "config", c |-> c, n |-> NApices(c), nu2 |-> c.alpha2 - c.nd, ranges |-> RangeCells(c), anisoang |-> AnisoAngleCode(c),
-   data |-> DataPts(c), z |-> DataVals(c), nuggetinv |-> NuggetInv(c), verrfrac |-> VerrFrac(c),
+   data |-> DataPts(c), z |-> DataVals(c), nuggetinv |-> NuggetInv(c), verrfrac |-> VerrFrac(c), struct2 |-> Struct2(c), nu2b |-> Struct2(c).alpha2 - c.nd, driftorder |-> DriftOrder(c),
    v1 |-> Vec1(NApices(c)), v2 |-> Vec2(NApices(c)), lincoefs |-> LinCoefs,
-   cgeps |-> CgEpsDefault, cgepsset |-> CgEpsSet, cgnitermax |-> CgNIterMax, eigentolset |-> EigenTolSet,
+   cgeps |-> CgEpsDefault, cgepsset |-> CgEpsSet, cgrestarts |-> CgRestarts, cgnitermax |-> CgNIterMax, eigentolset |-> EigenTolSet,
    eigentolnew |-> EigenTolKrigingSPDENew, safety |-> Safety, heavyevery |-> HeavyEvery]
 
 -----------------------------------------------------------------------------
